@@ -290,11 +290,11 @@ func c04(c *Ctx) {
 				rv := retResult(ret, 0)
 				for _, a := range origins(rv) {
 					switch {
-					case a.Kind == "call" && strings.Contains(a.Name, ".invoke"):
+					case a.Kind == "call" && isCallToFn(a.V, sel):
 						// must be under results != nil
 						nn := false
 						for _, g := range guardsAt(ret.Block()) {
-							if bo, ok := g.Cond.(*ssa.BinOp); ok && bo.Op == token.NEQ && g.Pol && (isNilConst(bo.X) || isNilConst(bo.Y)) {
+							if bo, ok := g.Cond.(*ssa.BinOp); ok && ((bo.Op == token.NEQ && g.Pol) || (bo.Op == token.EQL && !g.Pol)) && (isNilConst(bo.X) || isNilConst(bo.Y)) {
 								nn = true
 							}
 						}
@@ -609,4 +609,13 @@ func writesThroughParam(p *Prog, fn *ssa.Function, prm *ssa.Parameter) string {
 		}
 	})
 	return why
+}
+
+// isCallToFn: v is a call (or a result extracted from a call) whose static callee is f.
+func isCallToFn(v ssa.Value, f *ssa.Function) bool {
+	if ex, ok := v.(*ssa.Extract); ok {
+		v = ex.Tuple
+	}
+	cl, ok := v.(*ssa.Call)
+	return ok && f != nil && staticCallee(cl.Common()) == f
 }
